@@ -118,6 +118,7 @@ type (
 		Range        token.Range
 		TargetType   ddptypes.Type
 		Lhs          Expression
+		LhsType      ddptypes.Type // type of Lhs, filled in by the typechecker, to keep information about typedefs
 		OverloadedBy *OperatorOverload
 	}
 
